@@ -1,8 +1,208 @@
-import EdpVerif.Drv.Common
+import EdpVerif.Drv.Etf
+import EdpVerif.Impl.Elixir
+import EdpVerif.Spec.Elixir
+/-! Driver requests of property C20 (Elixir wrappers, ranges, proplist/map helpers). -/
 namespace Edp.Drv
+open Edp Edp.Ex
 
-/-- driver requests of property C20 (stub: nothing handled yet) -/
+namespace C20
+
+def getInt (s : String) : Except String Int :=
+  match s.toInt? with
+  | some i => .ok i
+  | none => .error ("bad-int " ++ s)
+
+def getNat (s : String) : Except String Nat :=
+  match s.toNat? with
+  | some i => .ok i
+  | none => .error ("bad-nat " ++ s)
+
+/-- `-` = None, `=<hex>` = Some(bytes) -/
+def getOptHex (s : String) : Except String (Option Bytes) :=
+  if s == "-" then .ok none else
+  match s.toList with
+  | '=' :: r => match unhexL r with
+    | some b => .ok (some b)
+    | none => .error "bad-opt-hex"
+  | _ => .error "bad-opt-hex"
+
+def getOptInt (s : String) : Except String (Option Int) :=
+  if s == "-" then .ok none else
+  match s.toList with
+  | '=' :: r => (getInt (String.ofList r)).map some
+  | _ => .error "bad-opt-int"
+
+def getOptTerm (s : String) : Except String (Option Term) :=
+  if s == "-" then .ok none else
+  match s.toList with
+  | '=' :: r => (getTerm (String.ofList r)).map some
+  | _ => .error "bad-opt-term"
+
+def outNat : Out Nat → String
+  | .ok n => toString n
+  | .panic => "panic"
+
+def outBool : Out Bool → String
+  | .ok true => "1"
+  | .ok false => "0"
+  | .panic => "panic"
+
+def intsText (l : List Int) : String := if l.isEmpty then "-" else ",".intercalate (l.map toString)
+
+def optHexText : Option Bytes → String
+  | none => "-"
+  | some b => "=" ++ hexOf b
+
+def optIntText : Option Int → String
+  | none => "-"
+  | some i => "=" ++ toString i
+
+def optTermText : Option Term → String
+  | none => "-"
+  | some t => "=" ++ t.text
+
+def naiveText (x : Naive) : String :=
+  s!"{x.year},{x.month},{x.day},{x.hour},{x.minute},{x.second},{x.usValue},{x.usPrecision}"
+
+/-- module of the one-field exceptions, by short name -/
+def excModule : String → Except String Bytes
+  | "argument" => .ok mArgumentError
+  | "runtime" => .ok mRuntimeError
+  | "arithmetic" => .ok mArithmeticError
+  | "match" => .ok mMatchError
+  | "badmap" => .ok mBadMapError
+  | "badfun" => .ok mBadFunctionError
+  | "caseclause" => .ok mCaseClauseError
+  | "withclause" => .ok mWithClauseError
+  | s => .error ("bad-exc " ++ s)
+
+def getNaive (a : List String) : Except String Naive :=
+  match a with
+  | [y, mo, d, h, mi, s, uv, up] => do
+    pure ⟨← getInt y, ← getInt mo, ← getInt d, ← getInt h, ← getInt mi, ← getInt s, ← getInt uv, ← getInt up⟩
+  | _ => .error "bad-naive"
+
+/-- the `(key, value)` pairs of a list of `{atom, value}` tuples (builder input) -/
+def getPairs (t : Term) : Except String (List (Bytes × Term)) :=
+  match t with
+  | .nil => .ok []
+  | .list l => l.mapM fun
+    | .tuple [.atom k, v] => .ok (k, v)
+    | _ => .error "bad-pairs"
+  | _ => .error "bad-pairs"
+
+def toTermReq : List String → Except String Term
+  | ["range", f, l, s] => do pure (Range.toTerm ⟨← getInt f, ← getInt l, ← getInt s⟩)
+  | ["date", y, m, d] => do pure (Date.toTerm ⟨← getInt y, ← getInt m, ← getInt d⟩)
+  | ["time", h, mi, s, uv, up] => do
+    pure (Time.toTerm ⟨← getInt h, ← getInt mi, ← getInt s, ← getInt uv, ← getInt up⟩)
+  | "naive" :: r => do pure (Naive.toTerm (← getNaive r))
+  | ["datetime", y, mo, d, h, mi, s, uv, up, tz, za, uo, so] => do
+    pure (DateTime.toTerm ⟨← getNaive [y, mo, d, h, mi, s, uv, up], ← getHex tz, ← getHex za, ← getInt uo, ← getInt so⟩)
+  | ["mapset", vals] => do
+    match ← getTerm vals with
+    | .list l => pure (MapSet.ofValues l).toTerm
+    | .nil => pure (MapSet.ofValues []).toTerm
+    | _ => .error "bad-mapset"
+  | ["msg", k, m] => do pure (msgExcToTerm (← excModule k) (← getHex m))
+  | ["texc", k, t] => do pure (termExcToTerm (← excModule k) (← getTerm t))
+  | ["cond"] => pure condExcToTerm
+  | ["keyerr", k, t, m] => do pure (KeyError.toTerm ⟨← getTerm k, ← getTerm t, ← getOptHex m⟩)
+  | ["undef", m, f, a, r] => do pure (UndefFn.toTerm ⟨← getHex m, ← getHex f, ← getInt a, ← getOptHex r⟩)
+  | ["fncl", m, f, a, g] => do pure (FnClause.toTerm ⟨← getOptHex m, ← getOptHex f, ← getOptInt a, ← getOptTerm g⟩)
+  | _ => .error "bad-c20to"
+
+def optText {α : Type} (f : α → String) : Option α → String
+  | none => "none"
+  | some a => f a
+
+def fromTermReq (kind : List String) (t : Term) : Except String String :=
+  match kind with
+  | ["range"] => pure <| optText (fun r => s!"R({r.first},{r.last},{r.step})") (Range.fromTerm t)
+  | ["date"] => pure <| optText (fun d => s!"D({d.year},{d.month},{d.day})") (Date.fromTerm t)
+  | ["time"] => pure <| optText (fun x => s!"T({x.hour},{x.minute},{x.second},{x.usValue},{x.usPrecision})") (Time.fromTerm t)
+  | ["naive"] => pure <| optText (fun x => "N(" ++ naiveText x ++ ")") (Naive.fromTerm t)
+  | ["datetime"] => pure <| optText (fun x =>
+      "Z(" ++ naiveText x.naive ++ s!",{hexOf x.timeZone},{hexOf x.zoneAbbr},{x.utcOffset},{x.stdOffset})") (DateTime.fromTerm t)
+  | ["mapset"] => pure <| optText (fun s => "M[" ++ Term.textL s.elements ++ "]") (MapSet.fromTerm t)
+  | ["msg", k] => do
+    let m ← excModule k
+    pure <| optText (fun b => "E" ++ hexOf b) (msgExcFromTerm m t)
+  | ["texc", k] => do
+    let m ← excModule k
+    pure <| optText (fun x => "X" ++ x.text) (termExcFromTerm m t)
+  | ["cond"] => pure <| optText (fun _ => "C") (condExcFromTerm t)
+  | ["keyerr"] => pure <| optText (fun e => "K(" ++ e.key.text ++ ";" ++ e.term.text ++ ";" ++ optHexText e.message ++ ")") (KeyError.fromTerm t)
+  | ["undef"] => pure <| optText (fun e => s!"UF({hexOf e.module},{hexOf e.function},{e.arity},{optHexText e.reason})") (UndefFn.fromTerm t)
+  | ["fncl"] => pure <| optText (fun e =>
+      "FC(" ++ optHexText e.module ++ "," ++ optHexText e.function ++ "," ++ optIntText e.arity ++ "," ++ optTermText e.args ++ ")") (FnClause.fromTerm t)
+  | _ => .error "bad-c20from"
+
+def resText : Option Term → String
+  | some t => "ok " ++ t.text
+  | none => "err"
+
+end C20
+
+open C20 in
 def handleC20 : List String → Option String
+  -- model of ElixirRange: is_empty, len, contains(v), size_hint, the first k `next()` results, size_hint afterwards
+  | ["c20range", f, l, s, v, k] => some <| run do
+    let r : Range := ⟨← getInt f, ← getInt l, ← getInt s⟩
+    let v ← getInt v
+    let k ← getNat k
+    let (xs, it, ended) := r.walk k r.iter []
+    pure (s!"e={if r.isEmpty then 1 else 0} len={outNat r.len} c={outBool (r.contains v)} sh={outNat (r.sizeHint r.iter)} " ++
+      s!"it={intsText xs};{if ended then "end" else "more"} sh2={outNat (r.sizeHint it)}")
+  -- Spec oracles on the implementation's answers
+  | ["c20rlen", f, l, s, got] => some <| run do
+    let c := Spec.Range.count (← getInt f) (← getInt l) (← getInt s)
+    pure (if got == toString c then "ok" else s!"FAIL spec={c} impl={got}")
+  | ["c20rhint", f, l, s, got] => some <| run do
+    let c := Spec.Range.count (← getInt f) (← getInt l) (← getInt s)
+    pure (if got == toString c then "ok" else s!"FAIL spec={c} impl={got}")
+  | ["c20rcont", f, l, s, v, got] => some <| run do
+    let b := Spec.Range.mem (← getInt f) (← getInt l) (← getInt s) (← getInt v)
+    let want := if b then "1" else "0"
+    pure (if got == want then "ok" else s!"FAIL spec={want} impl={got}")
+  | ["c20riter", f, l, s, k, got] => some <| run do
+    let f ← getInt f
+    let l ← getInt l
+    let s ← getInt s
+    let k ← getNat k
+    let c := Spec.Range.count f l s
+    let xs := (List.range (min c k)).map (Spec.Range.nth f s)
+    let want := intsText xs ++ ";" ++ (if c < k then "end" else "more")
+    pure (if got == want then "ok" else s!"FAIL spec={want} impl={got}")
+  | "c20to" :: r => some <| run do
+    let t ← toTermReq r
+    pure t.text
+  | "c20from" :: r =>
+    match r.reverse with
+    | t :: kindRev => some <| run do
+      let t ← getTerm t
+      fromTermReq kindRev.reverse t
+    | [] => some "bad-op c20from"
+  -- what the wire does to a term; the Lean codec model must agree with `wireNorm`
+  | ["c20wire", t] => some <| run do
+    let t ← getTerm t
+    let w := wireNorm t
+    match encode t with
+    | .error _ => pure "err"
+    | .ok b =>
+      match decode Ext.none b with
+      | .ok d => if d == w then pure ("ok " ++ w.text) else pure ("MODEL-CODEC-DISAGREES wireNorm=" ++ w.text ++ " codec=" ++ d.text)
+      | .error _ => pure "MODEL-CODEC-REJECTS"
+  | ["c20isp", t] => some <| run do pure (if isProplist (← getTerm t) then "1" else "0")
+  | ["c20norm", t] => some <| run do pure (resText (normalizeProplist (← getTerm t)))
+  | ["c20p2m", t] => some <| run do pure (resText (proplistToMap (← getTerm t)))
+  | ["c20m2p", t] => some <| run do pure (resText (mapToProplist (← getTerm t)))
+  | ["c20rec", t] => some <| run do pure ("ok " ++ (toMapRec t.length (← getTerm t)).text)
+  | ["c20pget", t, k] => some <| run do
+    pure (optText (fun x => "ok " ++ x.text) (proplistGetAtomKey (← getTerm t) (← getHex k)))
+  | ["c20kw", t] => some <| run do pure (kwBuild (← getPairs (← getTerm t))).text
+  | ["c20akm", t] => some <| run do pure (akmBuild (← getPairs (← getTerm t))).text
+  | ["c20akms", t, m] => some <| run do pure (akmBuildStruct (← getPairs (← getTerm t)) (← getHex m)).text
   | _ => none
 
 end Edp.Drv
